@@ -253,7 +253,8 @@ def render_file(path, module, moddir, ctx):
                 oid = cl.oid(key)
                 text = subst_params(cl.text, names, cl.src)
                 clauses.append((cl.kind, oid, text))
-                info.obligations[oid] = {'kind': 'clause', 'clause': cl.kind, 'props': cl.props, 'fn': key, 'text': text, 'src': cl.src}
+                info.obligations[oid] = {'kind': 'clause', 'clause': cl.kind, 'props': [p.split('@')[0] for p in cl.props], 'fn': key, 'text': text, 'src': cl.src,
+                                         'restricted': {p.split('@')[0]: p.split('@')[1] for p in cl.props if '@' in p}}
         # derived denotations
         body = src[f.body_start:f.body_end] if f.has_body else None
         sigtext = src[f.sig_start:f.sig_end]
